@@ -165,8 +165,8 @@ impl<'a> SubsetTable<'a> for &'a [ColorRecord] {
             }
 
             for entry_idx in retained_entries.iter() {
-                let record_idx = first_idx + entry_idx;
-                let Some(record) = self.get(record_idx as usize) else {
+                let record_idx = first_idx as usize + entry_idx as usize;
+                let Some(record) = self.get(record_idx) else {
                     return Err(s.set_err(SerializeErrorFlags::SERIALIZE_ERROR_OTHER));
                 };
                 s.embed(record.blue())?;
